@@ -6,6 +6,10 @@ import (
 	"bufio"
 	"bytes"
 	"encoding/json"
+	"fmt"
+	"os"
+	"os/exec"
+	"sync"
 	"testing"
 )
 
@@ -41,4 +45,63 @@ func runClientScenarioAs(t *testing.T, idx int, kind string, sc clientScenario, 
 		em.Emit(r)
 	}
 	em.Marker("end", idx)
+}
+
+// sharded re-executes the current test binary as nShards child processes, each
+// running the scenarios whose index is congruent to its shard number, and
+// merges their output files into -out. It returns (shard, n, true) in a child
+// (the caller runs its share) and (0, 0, false) in the parent once the
+// children are done (the caller returns).
+func sharded(t *testing.T, testName string, nShards int) (int, int, bool) {
+	if s := os.Getenv("CL_SHARD"); s != "" {
+		var i, n int
+		fmt.Sscanf(s, "%d/%d", &i, &n)
+		return i, n, true
+	}
+	if *flagOut == "" || *flagOnly >= 0 {
+		return 0, 1, true
+	}
+	var wg sync.WaitGroup
+	outs := make([]string, nShards)
+	errs := make([]error, nShards)
+	for i := 0; i < nShards; i++ {
+		outs[i] = fmt.Sprintf("%s.shard%d", *flagOut, i)
+		os.Remove(outs[i])
+		wg.Add(1)
+		go func(i int) {
+			defer wg.Done()
+			cmd := exec.Command(os.Args[0], "-test.run", "^"+testName+"$", "-test.timeout", "0", "-out", outs[i],
+				"-seed", fmt.Sprint(*flagSeed), "-tier", *flagTier, "-from", fmt.Sprint(*flagFrom))
+			cmd.Env = append(os.Environ(), fmt.Sprintf("CL_SHARD=%d/%d", i, nShards))
+			out, err := cmd.CombinedOutput()
+			if err != nil {
+				errs[i] = fmt.Errorf("shard %d: %v: %s", i, err, tail(string(out), 1500))
+			}
+		}(i)
+	}
+	wg.Wait()
+	f, err := os.OpenFile(*flagOut, os.O_CREATE|os.O_WRONLY|os.O_APPEND, 0o644)
+	if err != nil {
+		t.Fatal(err)
+	}
+	for i := 0; i < nShards; i++ {
+		if b, err := os.ReadFile(outs[i]); err == nil {
+			f.Write(b)
+		}
+		os.Remove(outs[i])
+	}
+	f.Close()
+	for _, e := range errs {
+		if e != nil {
+			t.Errorf("%v", e)
+		}
+	}
+	return 0, 0, false
+}
+
+func tail(s string, n int) string {
+	if len(s) > n {
+		return s[len(s)-n:]
+	}
+	return s
 }
